@@ -474,6 +474,27 @@ class UnitGen:
             return "\n".join(g.stmt(0) for _ in range(r.randint(1, 6)))
         raise ValueError(kind)
 
+    def wide_function(self, name):
+        """descriptive (long) identifiers, several of them flowing into one variable: wide bound expressions in the result display"""
+        r = self.r
+        words = ["accumulated", "total", "value", "first", "second", "third", "operand", "result", "counter", "buffer", "length", "index",
+                 "temporary", "maximum", "offset", "previous", "current", "remaining"]
+        names = []
+        while len(names) < r.randint(4, 6):
+            nm = "_".join(r.sample(words, r.randint(1, 3))) + (str(r.randrange(10)) if r.random() < 0.3 else "")
+            if nm not in names:
+                names.append(nm)
+        tgt = names[0]
+        body = [f"{tgt} = {names[1]} {r.choice('+*')} {names[2]};"]
+        for v in names[3:]:
+            if r.random() < 0.7 and len(body) < 3:
+                body.append(f"{tgt} = {tgt} {r.choice('+*')} {v};")
+        body.append(f"{names[-1]} = {names[1]} {r.choice('+*-')} {names[2]};")
+        if r.random() < 0.4:
+            body.append(f"while ({names[1]} > 0) {{ {names[2]} = {names[1]}; }}")
+        r.shuffle(body)
+        return f"int {name}(" + ", ".join("int " + v for v in names) + ")\n{\n" + "\n".join(body) + "\n}\n"
+
     def function(self, name, kind):
         r = self.r
         if r.random() < 0.8:
@@ -539,7 +560,7 @@ class UnitGen:
 
     def unit(self):
         r = self.r
-        kinds = ["mixed", "mixed", "casts", "failing", "deep", "fors", "consts", "decls", "syntax", "empty", "gp", "gp", "dense"]
+        kinds = ["mixed", "mixed", "casts", "failing", "deep", "fors", "consts", "decls", "syntax", "empty", "gp", "gp", "dense", "wide"]
         nf = r.choice([1, 1, 1, 2, 2, 3, 4])
         pre = [r.choice(PREAMBLES) for _ in range(r.choice([0, 0, 1, 2, 4]))]
         parts, tags = list(pre), []
@@ -547,7 +568,7 @@ class UnitGen:
             kind = r.choice(kinds)
             tags.append(kind)
             name = f"f{k}" if r.random() < 0.95 else "f0"      # rarely: a duplicate name
-            parts.append(self.gp_insert(name) if kind == "gp" else self.function(name, kind))
+            parts.append(self.gp_insert(name) if kind == "gp" else (self.wide_function(name) if kind == "wide" else self.function(name, kind)))
             if r.random() < 0.15:
                 parts.append(r.choice(PREAMBLES))
         return "\n".join(parts), tags
